@@ -308,7 +308,7 @@ def run(ctx):
     ctx.extra['mirror_objects_checked'] = mirror_check(ctx, r)
     # long random behaviours of the specification (trimmed argument domains keep -simulate usable)
     nsim, dsim = (10, 10) if thorough else (2, 6)     # traces per worker; every trace emits all its last successors
-    r = ctx.tlc('MC_DataStore', cfg([20322, 30322, 40420, 20223], dsim, 1, const(maxobj=4), props=False),
+    r = ctx.tlc('MC_DataStore', cfg([50322, 30322, 40420, 20223], dsim, 1, const(maxobj=4), props=False),
                 name='sim', simulate=f'num={nsim}', depth=dsim + 1, workers=16, timeout=1200)
     if r.n_emitted < 16 * nsim:
         raise MachineryError(f'simulation emitted only {r.n_emitted} behaviours')
